@@ -65,9 +65,9 @@ Lemma work1_records wp ws0 fs0 w0 s1 fl1 tr1 r1 w1 :
   (forall b d, get_state s1 b <> Unknown -> In d (disc_of w0 b) -> P d = None) ->
   (forall b t rep n d, In (JFinish b t rep) tr1 -> In n (reported_names rep) -> n <> [] ->
                        canon n = Ok d -> P d = None) ->
-  exists ws1, log_is w1 ws1 /\
+  log_is w1 (ws0 ++ work_records wg w1 tr1) /\
     forall b, b < nb -> wb_cmdline (get_wbuild wg b) <> None -> get_state s1 b <> Unknown ->
-      HM wg w1 ws1 b.
+      HM wg w1 (ws0 ++ work_records wg w1 tr1) b.
 Proof.
   intros Hlog Hb Hs El W Ha Ho Hret Hd0 Hrep.
   destruct (load_log_is wg fs0 wp ws0 Hlog Hb Hs) as (wL & El' & _ & Hca & _ & _ & HlL & Hld).
@@ -82,9 +82,9 @@ Proof.
   assert (Hf : Forall (item_src wg) tr1).
   { apply Forall_forall. intros j Hj. destruct j; try exact I. cbn [item_src].
     intros n d Hn Hne Hcn. exact (Hrep _ _ _ n d Hj Hn Hne Hcn). }
-  destruct (Work1_reach cf decls wg Hwf Hag Had Houts w0 ws0 W0 Hld Hd0 _ ws0 tr1 a1 J L Hf Hr)
-    as (J1 & ws1 & L1).
-  exists ws1. rewrite <- Ew. split; [exact (li_log _ _ _ _ _ _ _ L1)|].
+  destruct (Work1_reach cf decls wg Hwf Hag Had Houts w0 ws0 W0 Hld Hd0 _ tr1 a1 J L Hf Hr)
+    as (J1 & L1).
+  rewrite <- Ew. split; [exact (li_log _ _ _ _ _ _ _ L1)|].
   intros b Lb Hcmd Hw. apply (li_settled _ _ _ _ _ _ _ L1 b Lb Hcmd). left.
   pose proof (ji_r _ _ _ _ J1) as R1. pose proof (ri_ctl _ _ _ R1) as K. rewrite Er, Hret in K.
   cbn [ctl_ok] in K. destruct K as (_ & _ & AD). rewrite Er.
@@ -119,8 +119,9 @@ Theorem null_build_invocation :
                get_state s1 b <> Unknown ->
                In n (wb_dirtying (get_wbuild wg b) ++ disc_of w1 b ++ wb_outs (get_wbuild wg b)) ->
                fs_get (ws_fs w1) n <> None) ->
-  (* the log after Work 1 is within the limits of the record format *)
-  (forall ws1, log_is w1 ws1 -> Forall in_bounds ws1 /\ table_small ws1) ->
+  (* the records Work 1 appended are within the limits of the record format (F7), and so is
+     the id table of the whole log *)
+  Forall in_bounds (work_records wg w1 tr1) -> table_small (ws0 ++ work_records wg w1 tr1) ->
   (* Work 2: the tree and the log Work 1 left, the same manifest, no new targets *)
   load_state wg (ws_fs w1) (ws_log w1) = Ok w20 ->
   wanted (cf_graph cf) (bs_new (length (g_builds (cf_graph cf))) decls2) s2 ->
@@ -134,10 +135,11 @@ Theorem null_build_invocation :
   rs_tasks_run r2 = 0.
 Proof.
   intros cf cf2 decls decls2 wg wp ws0 fs0 w0 s1 fl1 tr1 r1 w1 w20 s2 fl2 tr2 r2 w2
-         Hwf Hag Hg2 Had Houts Hlog Hb Hs El W1 Ha1 Ho1 Hret Hd0 Hrep Hpres Hlim El2 W2 Hsub Ha2 Ho2.
+         Hwf Hag Hg2 Had Houts Hlog Hb Hs El W1 Ha1 Ho1 Hret Hd0 Hrep Hpres Hbr Hs1 El2 W2 Hsub Ha2 Ho2.
   destruct (work1_records cf decls wg Hwf Hag Had Houts wp ws0 fs0 w0 s1 fl1 tr1 r1 w1
-              Hlog Hb Hs El W1 Ha1 Ho1 Hret Hd0 Hrep) as (ws1 & Hlog1 & HHM).
-  destruct (Hlim ws1 Hlog1) as (Hb1 & Hs1).
+              Hlog Hb Hs El W1 Ha1 Ho1 Hret Hd0 Hrep) as (Hlog1 & HHM).
+  set (ws1 := ws0 ++ work_records wg w1 tr1) in *.
+  assert (Hb1 : Forall in_bounds ws1) by (apply Forall_app; now split).
   destruct (load_log_is wg (ws_fs w1) w1 ws1 Hlog1 Hb1 Hs1) as (wL & El' & Hfs & Hca & _ & _ & _ & Hld).
   rewrite El2 in El'. injection El' as <-.
   assert (Hgood : forall b, b < length (g_builds (cf_graph cf)) -> wb_cmdline (get_wbuild wg b) <> None ->
@@ -190,7 +192,7 @@ Theorem null_build_invocation_trace :
                get_state s1 b <> Unknown ->
                In n (wb_dirtying (get_wbuild wg b) ++ disc_of w1 b ++ wb_outs (get_wbuild wg b)) ->
                fs_get (ws_fs w1) n <> None) ->
-  (forall ws1, log_is w1 ws1 -> Forall in_bounds ws1 /\ table_small ws1) ->
+  Forall in_bounds (work_records wg w1 pre1) -> table_small (ws0 ++ work_records wg w1 pre1) ->
   load_state wg (ws_fs w1) (ws_log w1) = Ok w20 ->
   wanted (cf_graph cf) (bs_new (length (g_builds (cf_graph cf))) decls2) s2 ->
   (forall b, get_state s2 b <> Unknown -> get_state s1 b <> Unknown) ->
@@ -203,10 +205,14 @@ Theorem null_build_invocation_trace :
   rs_tasks_run r2 = 0.
 Proof.
   intros cf cf2 decls decls2 wg wp ws0 fs0 w0 s1 fl1 pre1 r1 w1 w20 s2 fl2 tr2 r2 w2
-         Hwf Hag Hg2 Had Houts Hlog Hb Hs El W1 Ha1 Ho1 Hd0 Hrep Hpres Hlim El2 W2 Hsub Ha2 Ho2.
+         Hwf Hag Hg2 Had Houts Hlog Hb Hs El W1 Ha1 Ho1 Hd0 Hrep Hpres Hbr Hs1 El2 W2 Hsub Ha2 Ho2.
+  assert (Er : work_records wg w1 (pre1 ++ [JReturn (Some true)]) = work_records wg w1 pre1).
+  { unfold work_records. rewrite trace_records_snoc. cbn [rec_item]. now rewrite app_nil_r. }
   apply (null_build_invocation cf cf2 decls decls2 wg wp ws0 fs0 w0 s1 fl1 _ r1 w1 w20 s2 fl2 tr2 r2 w2
            Hwf Hag Hg2 Had Houts Hlog Hb Hs El W1 Ha1 Ho1); auto.
   - exact (jaccepted_ends_return _ _ _ _ _ _ _ _ Ha1).
   - intros b t rep n d Hin. apply in_app_or in Hin. destruct Hin as [Hin|[Hin|[]]]; [|discriminate].
     exact (Hrep b t rep n d Hin).
+  - now rewrite Er.
+  - now rewrite Er.
 Qed.
